@@ -149,7 +149,7 @@ def provedTheorems : List String :=
   [ "C01_lex_never_panics", "C01_span_no_panic", "C01_trace_crop_no_panic", "C01_trace_counter_no_panic",
     "C01_radix_no_panic", "C01_compare_no_panic", "C01_gc_no_destroyed_access",
     "C01_eval_set_done_assertion_never_fails", "C07_views_agree", "C14_drop_trivia", "C15_spans_nested",
-    "C09_eval_no_unbound_at_runtime" ]
+    "C09_eval_no_unbound_at_runtime", "C01_eval_no_internal_error_except_nan", "C15_parse_never_faults" ]
 
 example := @Rsj.C01.C01_lex_never_panics
 example := @Rsj.C01.C01_span_no_panic
@@ -162,9 +162,10 @@ example := @Rsj.Eval.C01_eval_set_done_assertion_never_fails
 example := @Rsj.Object.C07_views_agree
 example := @Rsj.Lexer.C14_drop_trivia
 example := @Rsj.Parser.C15_spans_nested
--- `C09_eval_no_unbound_at_runtime` lives in RsjProps/C09Eval.lean, which cannot be imported next to RsjProps.C04Eval
+example := @Rsj.Parser.C15_parse_never_faults
+-- `C09_eval_no_unbound_at_runtime` lives in RsjProps/C09Eval.lean and `C01_eval_no_internal_error_except_nan` in RsjProps/C01Eval.lean, which cannot be imported next to RsjProps.C04Eval
 -- (both elaborate equation lemmas of the same evaluator matchers; Lean refuses the duplicate auxiliary declarations).
--- Its existence is checked by the build of RsjProps.C09Eval, which checks/c01.py builds and audits with this module.
+-- Their existence is checked by the builds of RsjProps.C09Eval and RsjProps.C01Eval, which checks/c01.py builds and audits with this module.
 
 def provedClasses : List String := provedTheorems.map (fun t => "proved:" ++ t)
 
@@ -186,20 +187,21 @@ theorem C01_panic_sites_no_stale : Rsj.PanicSites.stale = [] := by decide
 def panicSiteCount (c : String) : Nat := (Rsj.PanicSites.sites.filter (fun s => s.2 == c)).length
 
 /-- **C01 panic_sites_counts.**  The size of the inventory and of every class (quoted by the
-    evidence).  771 sites: 394 pops / peeks / swaps of the evaluator's explicit stacks, 50 covered by
-    a theorem, 2 reviewed without a guard in sight or a theorem. -/
+    evidence).  771 sites: 394 pops / peeks / swaps of the evaluator's explicit stacks, 56 covered by
+    a theorem, none left that is only "reviewed" without a guard in sight or a theorem. -/
 theorem C01_panic_sites_counts :
     Rsj.PanicSites.sites.length = 771 ∧
     (panicClasses ++ provedClasses).map (fun c => (c, panicSiteCount c)) =
-      [ ("explicit-stack-pop", 394), ("guarded-locally", 134), ("type-guarded", 7), ("state-invariant", 69),
-        ("construction-invariant", 24), ("startup-invariant", 6), ("interner/arena-invariant", 5),
+      [ ("explicit-stack-pop", 394), ("guarded-locally", 133), ("type-guarded", 7), ("state-invariant", 69),
+        ("construction-invariant", 21), ("startup-invariant", 6), ("interner/arena-invariant", 5),
         ("refcell-scoped-borrow", 13), ("float-arith", 9), ("infallible-by-type", 12), ("host-io", 24),
-        ("host-api-contract", 4), ("external-crate-protocol", 18), ("unclassified-reviewed", 2),
+        ("host-api-contract", 4), ("external-crate-protocol", 18), ("unclassified-reviewed", 0),
         ("proved:C01_lex_never_panics", 6), ("proved:C01_span_no_panic", 6), ("proved:C01_trace_crop_no_panic", 2),
         ("proved:C01_trace_counter_no_panic", 3), ("proved:C01_radix_no_panic", 0), ("proved:C01_compare_no_panic", 1),
         ("proved:C01_gc_no_destroyed_access", 1), ("proved:C01_eval_set_done_assertion_never_fails", 1),
         ("proved:C07_views_agree", 23), ("proved:C14_drop_trivia", 2), ("proved:C15_spans_nested", 1),
-        ("proved:C09_eval_no_unbound_at_runtime", 4) ] := by
+        ("proved:C09_eval_no_unbound_at_runtime", 4),
+        ("proved:C01_eval_no_internal_error_except_nan", 3), ("proved:C15_parse_never_faults", 3) ] := by
   decide +kernel
 
 /-- The obligation is not vacuous: the table is not empty, and the class the extractor gives
